@@ -1,5 +1,5 @@
 (* Proofs/PCompare.v — lemmas about Model/MCompare.v (property C08). *)
-From Coq Require Import List Bool String ZArith QArith Qabs Permutation Sorted Lia Lqa.
+From Coq Require Import List Bool String ZArith QArith Qabs Qreduction Permutation Sorted Lia Lqa.
 From KV Require Import Eqb AL Str.
 From KV.Model Require Import MCompare.
 Import ListNotations.
@@ -582,23 +582,23 @@ Proof. intros E. apply bool_eq_of_iff. rewrite !Qle_bool_iff, E. tauto. Qed.
 Lemma rot_close_refl r : rot_close r r = true.
 Proof.
   destruct r as [[[w x] y] z]. unfold rot_close. apply orb_true_iff; left. apply Qle_bool_iff.
-  assert (E : dist2_4 (w, x, y, z) (w, x, y, z) == 0) by (unfold dist2_4, sq; ring).
+  assert (E : dist2_4 (w, x, y, z) (w, x, y, z) == 0) by (unfold dist2_4, sq, radd, rsub; rewrite !Qred_correct; ring).
   rewrite E. vm_compute. discriminate.
 Qed.
 Lemma trans_close_refl t : trans_close t t = true.
 Proof.
   destruct t as [[x y] z]. unfold trans_close. apply Qle_bool_iff.
-  assert (E : dist2_3 (x, y, z) (x, y, z) == 0) by (unfold dist2_3, sq; ring).
+  assert (E : dist2_3 (x, y, z) (x, y, z) == 0) by (unfold dist2_3, sq, radd, rsub; rewrite !Qred_correct; ring).
   rewrite E. vm_compute. discriminate.
 Qed.
 Lemma rot_close_sym r s : rot_close r s = rot_close s r.
 Proof.
   destruct r as [[[w x] y] z], s as [[[w' x'] y'] z']. unfold rot_close. f_equal; apply Qle_bool_eq_l;
-    unfold dist2_4, sum2_4, sq; ring.
+    unfold dist2_4, sum2_4, sq, radd, rsub; rewrite !Qred_correct; ring.
 Qed.
 Lemma trans_close_sym t u : trans_close t u = trans_close u t.
 Proof.
-  destruct t as [[x y] z], u as [[x' y'] z']. unfold trans_close. apply Qle_bool_eq_l. unfold dist2_3, sq; ring.
+  destruct t as [[x y] z], u as [[x' y'] z']. unfold trans_close. apply Qle_bool_eq_l. unfold dist2_3, sq, radd, rsub; rewrite !Qred_correct; ring.
 Qed.
 
 Lemma pose_close_q_refl p : pose_close_q p p = true.
